@@ -55,17 +55,18 @@ type Scenario struct {
 }
 
 type scen struct {
-	sc      Scenario
-	em      *emitter
-	sh      *shaker
-	res     *vh.Result
-	tw      *tpWorld
-	mw      *mpWorld
-	lw      *lpWorld
-	kctr    int64
-	itemCtr int64
-	live    sync.Map // proc name -> "k:op"
-	bound   time.Duration
+	sc       Scenario
+	em       *emitter
+	sh       *shaker
+	res      *vh.Result
+	tw       *tpWorld
+	mw       *mpWorld
+	lw       *lpWorld
+	kctr     int64
+	itemCtr  int64
+	live     sync.Map // proc name -> "k:op"
+	bound    time.Duration
+	lastDiag string
 }
 
 type local struct {
@@ -352,15 +353,18 @@ var parkedStates = map[string]bool{"chan send": true, "chan receive": true, "sel
 
 // waitOrHang waits for done. Blocking forever is this property's subject, so a call that does not
 // return is judged, but never by a timeout alone: the calls in flight are reported as hung only when
-// (1) every goroutine executing an API call is parked on a channel / lock inside the SDK, with the
-// same goroutines at the same frames in every dump taken over at least `confirm` (default 3 s, five
-// orders of magnitude above the cost of the in-memory calls involved), and (2) no goroutine of the
-// whole process other than the watcher is running or runnable in two consecutive dumps, i.e. nothing
-// is left that could wake them up (all timers of the scenario are either sub-millisecond, so they
-// would have fired thousands of times, or one hour). Otherwise the scenario is abandoned as
-// non-quiescent after `bound` (inconclusive, never a verdict).
+// every goroutine executing an API call is parked on a channel / lock inside the SDK (not running,
+// not runnable, not sleeping), and the very same goroutines sit in the very same SDK frames in every
+// one of the >= 20 dumps the watcher takes over `confirm` = 5 s. The calls involved are in-memory
+// operations that take microseconds, so 5 s is six orders of magnitude above their cost; a goroutine
+// that could still wake them up would have to stay runnable-but-unscheduled for 5 s while the watcher
+// goroutine of the same process is scheduled every 250 ms (Go schedules the goroutines of a process
+// fairly, machine load slows them all alike); and no timer of a scenario lies in that range (batch
+// timeouts / export intervals are <= 2 ms or one hour, contexts are live or already cancelled). The
+// goroutine dump goes into the replay artefact. If the criterion is not met the scenario is abandoned
+// as non-quiescent after `bound` (inconclusive, never a verdict).
 func (s *scen) waitOrHang(done <-chan struct{}) (hung bool, where string, dump string) {
-	confirm := 3 * time.Second
+	confirm := 5 * time.Second
 	start := time.Now()
 	var stableSince time.Time
 	prevKey := ""
@@ -393,7 +397,8 @@ func (s *scen) waitOrHang(done <-chan struct{}) (hung bool, where string, dump s
 		sort.Strings(ops)
 		key := strings.Join(ops, ";")
 		// the watcher itself is the one running goroutine
-		if len(ops) > 0 && allParked && busy <= 1 && key == prevKey {
+		_ = busy
+		if len(ops) > 0 && allParked && key == prevKey {
 			if stableSince.IsZero() {
 				stableSince = time.Now()
 			}
@@ -417,6 +422,13 @@ func (s *scen) waitOrHang(done <-chan struct{}) (hung bool, where string, dump s
 		}
 		prevKey = key
 		if time.Since(start) > s.bound {
+			states := []string{}
+			for _, g := range gs {
+				if (g.isOp && !leakedOps[g.id]) || g.state == "running" || g.state == "runnable" || g.state == "syscall" {
+					states = append(states, fmt.Sprintf("%s[%s op=%v]@%s", g.id, g.state, g.isOp, g.where))
+				}
+			}
+			s.lastDiag = strings.Join(states, " ")
 			return false, "", d
 		}
 	}
@@ -502,6 +514,7 @@ func (s *scen) run() {
 	}
 	s.em.ev("EndScenario", "quiescent", quiescent)
 	s.observe()
+	s.cleanup()
 }
 
 func (s *scen) finish(done <-chan struct{}) bool {
@@ -515,8 +528,23 @@ func (s *scen) finish(done <-chan struct{}) bool {
 		return true
 	default:
 		s.res.Count("scenarios_non_quiescent", 1)
-		s.res.Inconcl(fmt.Sprintf("scenario %d (%s) did not finish within %s without meeting the hang criterion", s.em.sc, s.sc.Name, s.bound))
+		s.res.Inconcl(fmt.Sprintf("scenario %d (%s) did not finish within %s without meeting the hang criterion: %s", s.em.sc, s.sc.Name, s.bound, s.lastDiag))
 		return false
+	}
+}
+
+// cleanup releases the background goroutines of stock components that the provider did not shut down
+// (hung scenarios; processors stranded by the known defects). Not part of any observation: the
+// scenario's emitter is closed first.
+func (s *scen) cleanup() {
+	s.em.close()
+	switch {
+	case s.tw != nil:
+		s.tw.cleanup()
+	case s.lw != nil:
+		s.lw.cleanup()
+	case s.mw != nil:
+		s.mw.cleanup()
 	}
 }
 
